@@ -10,6 +10,22 @@ use tokio::io::{AsyncReadExt, AsyncWriteExt};
 
 use crate::engine::splitmix64;
 
+thread_local! {
+    static EVSEQ: std::cell::Cell<u64> = const { std::cell::Cell::new(0) };
+}
+/// Global ordinal shared by the wire log and the application logs of a case (causality
+/// inside one virtual instant).
+pub fn next_ord() -> u64 {
+    EVSEQ.with(|c| {
+        let v = c.get() + 1;
+        c.set(v);
+        v
+    })
+}
+pub fn reset_ord() {
+    EVSEQ.with(|c| c.set(0));
+}
+
 /// Position-dependent keyed byte stream: any offset error, duplication or cross-connection
 /// leak changes the content.
 #[derive(Clone, Copy, Debug)]
@@ -80,6 +96,7 @@ pub enum AppEv {
 
 #[derive(Clone, Debug)]
 pub struct AppRec {
+    pub ord: u64,
     pub t_us: u64,
     /// instant at which the operation was started
     pub t_start_us: u64,
@@ -102,6 +119,9 @@ pub struct EndpointLog {
     pub reader_done: bool,
     /// `written` value at each successful flush / shutdown: (t_us, written, is_shutdown)
     pub sync_points: Vec<(u64, u64, bool)>,
+    /// keep the bytes that were read (SP engine: verified post hoc)
+    pub keep_data: bool,
+    pub read_data: Vec<u8>,
 }
 
 pub type SharedLog = Arc<Mutex<EndpointLog>>;
@@ -110,7 +130,7 @@ fn now_us(t0: tokio::time::Instant) -> u64 {
     (tokio::time::Instant::now() - t0).as_micros() as u64
 }
 
-pub async fn run_writer(mut w: UtpStreamWriteHalf, ops: Vec<WOp>, stream: Stream, log: SharedLog, t0: tokio::time::Instant, trace: Option<&'static str>) {
+pub async fn run_writer(mut w: UtpStreamWriteHalf, mut ops: tokio::sync::mpsc::UnboundedReceiver<WOp>, stream: Stream, log: SharedLog, t0: tokio::time::Instant, trace: Option<&'static str>, abort: Arc<tokio::sync::Notify>) {
     let mut off: u64 = 0;
     let mut buf = Vec::new();
     let push = |log: &SharedLog, t_start: u64, ev: AppEv| {
@@ -120,10 +140,10 @@ pub async fn run_writer(mut w: UtpStreamWriteHalf, ops: Vec<WOp>, stream: Stream
                 println!("        app {tag} t={:.3}ms (started {:.3}ms) {:?}", t as f64 / 1000.0, t_start as f64 / 1000.0, ev);
             }
         }
-        log.lock().recs.push(AppRec { t_us: t, t_start_us: t_start, ev });
+        log.lock().recs.push(AppRec { ord: next_ord(), t_us: t, t_start_us: t_start, ev });
     };
     let mut dropped = false;
-    'outer: for op in ops {
+    'outer: while let Some(op) = ops.recv().await {
         match op {
             WOp::Write { n, chunk } => {
                 let mut left = n as usize;
@@ -133,7 +153,8 @@ pub async fn run_writer(mut w: UtpStreamWriteHalf, ops: Vec<WOp>, stream: Stream
                     buf.resize(c, 0);
                     stream.fill(off, &mut buf);
                     let ts = now_us(t0);
-                    match w.write(&buf).await {
+                    let wr = tokio::select! { biased; _ = abort.notified() => { dropped = true; break 'outer; } x = w.write(&buf) => x };
+                    match wr {
                         Ok(0) => {
                             log.lock().write_err = Some("write returned Ok(0)".into());
                             push(&log, ts, AppEv::WriteErr("write returned Ok(0)".into()));
@@ -156,7 +177,8 @@ pub async fn run_writer(mut w: UtpStreamWriteHalf, ops: Vec<WOp>, stream: Stream
             }
             WOp::Flush => {
                 let ts = now_us(t0);
-                match w.flush().await {
+                let fr = tokio::select! { biased; _ = abort.notified() => { dropped = true; break 'outer; } x = w.flush() => x };
+                match fr {
                     Ok(()) => {
                         let t = now_us(t0);
                         log.lock().sync_points.push((t, off, false));
@@ -170,7 +192,8 @@ pub async fn run_writer(mut w: UtpStreamWriteHalf, ops: Vec<WOp>, stream: Stream
             }
             WOp::Shutdown => {
                 let ts = now_us(t0);
-                match w.shutdown().await {
+                let sr = tokio::select! { biased; _ = abort.notified() => { dropped = true; break 'outer; } x = w.shutdown() => x };
+                match sr {
                     Ok(()) => {
                         let t = now_us(t0);
                         log.lock().sync_points.push((t, off, true));
@@ -202,7 +225,7 @@ pub async fn run_writer(mut w: UtpStreamWriteHalf, ops: Vec<WOp>, stream: Stream
     }
 }
 
-pub async fn run_reader(mut r: UtpStreamReadHalf, ops: Vec<ROp>, stream: Stream, log: SharedLog, t0: tokio::time::Instant, trace: Option<&'static str>) {
+pub async fn run_reader(mut r: UtpStreamReadHalf, mut ops: tokio::sync::mpsc::UnboundedReceiver<ROp>, stream: Stream, log: SharedLog, t0: tokio::time::Instant, trace: Option<&'static str>, abort: Arc<tokio::sync::Notify>) {
     let mut off: u64 = 0;
     let mut buf = Vec::new();
     let push = |log: &SharedLog, t_start: u64, ev: AppEv| {
@@ -212,11 +235,11 @@ pub async fn run_reader(mut r: UtpStreamReadHalf, ops: Vec<ROp>, stream: Stream,
                 println!("        app {tag} t={:.3}ms (started {:.3}ms) {:?}", t as f64 / 1000.0, t_start as f64 / 1000.0, ev);
             }
         }
-        log.lock().recs.push(AppRec { t_us: t, t_start_us: t_start, ev });
+        log.lock().recs.push(AppRec { ord: next_ord(), t_us: t, t_start_us: t_start, ev });
     };
     let mut dropped = false;
     let mut ended = false;
-    'outer: for op in ops {
+    'outer: while let Some(op) = ops.recv().await {
         let (mut left, bsz) = match op {
             ROp::Read { n, buf } => (n as u64, buf),
             ROp::ReadToEnd { buf } => (u64::MAX, buf),
@@ -236,7 +259,8 @@ pub async fn run_reader(mut r: UtpStreamReadHalf, ops: Vec<ROp>, stream: Stream,
         while left > 0 {
             let want = (left.min(buf.len() as u64)) as usize;
             let ts = now_us(t0);
-            match r.read(&mut buf[..want]).await {
+            let rr = tokio::select! { biased; _ = abort.notified() => { dropped = true; break 'outer; } x = r.read(&mut buf[..want]) => x };
+            match rr {
                 Ok(0) => {
                     log.lock().eof = true;
                     push(&log, ts, AppEv::Eof);
@@ -244,12 +268,16 @@ pub async fn run_reader(mut r: UtpStreamReadHalf, ops: Vec<ROp>, stream: Stream,
                     continue 'outer;
                 }
                 Ok(k) => {
-                    let bad = stream.mismatch(off, &buf[..k]).map(|i| off + i as u64);
+                    let keep = log.lock().keep_data;
+                    let bad = if keep { None } else { stream.mismatch(off, &buf[..k]).map(|i| off + i as u64) };
                     off += k as u64;
                     left -= k as u64;
                     {
                         let mut g = log.lock();
                         g.read = off;
+                        if g.keep_data {
+                            g.read_data.extend_from_slice(&buf[..k]);
+                        }
                         if g.first_bad_read_at.is_none() {
                             g.first_bad_read_at = bad;
                         }
@@ -275,4 +303,14 @@ pub async fn run_reader(mut r: UtpStreamReadHalf, ops: Vec<ROp>, stream: Stream,
         std::future::pending::<()>().await;
         drop(r);
     }
+}
+
+/// Feed a fixed script into a fresh channel (the sender is dropped: the task then holds its
+/// half until the scenario ends).
+pub fn script_chan<T>(ops: Vec<T>) -> tokio::sync::mpsc::UnboundedReceiver<T> {
+    let (tx, rx) = tokio::sync::mpsc::unbounded_channel();
+    for o in ops {
+        let _ = tx.send(o);
+    }
+    rx
 }
